@@ -38,6 +38,9 @@ type FuncContract struct {
 	Consumes []string
 	Mutates  []string
 	Borrows  []string
+	Inplace  []string
+	Props    []string // properties whose ownership/frame/effects obligations this function carries
+	Borrowed bool // results alias data the caller does not own (heap look-ups)
 	Effects  []string
 	Fresh    bool
 	Trusted  bool // contract is assumed, body not verified (stated in evidence)
@@ -215,6 +218,12 @@ func parseContractFile(path, pkgDir string) ([]*FuncContract, error) {
 			cur.Mutates = append(cur.Mutates, splitNames(rest)...)
 		case "borrows":
 			cur.Borrows = append(cur.Borrows, splitNames(rest)...)
+		case "property":
+			cur.Props = append(cur.Props, splitNames(rest)...)
+		case "inplace":
+			cur.Inplace = append(cur.Inplace, splitNames(rest)...)
+		case "borrowed":
+			cur.Borrowed = true
 		case "effects":
 			cur.Effects = append(cur.Effects, splitNames(rest)...)
 			if len(splitNames(rest)) == 0 {
